@@ -29,9 +29,10 @@ def neuron_case(cls, B, seed):
     torch.manual_seed(seed)
     big = n3.mk(cls, 1.0, 2.0, B=B)
     small = [n3.mk(cls, 1.0, 2.0, B=1) for _ in range(B)]
-    big.eval()
+    # training mode with adaptation explicitly frozen (adapt=False): the frozen flag must win over the module mode
+    big.train()
     for s in small:
-        s.eval()
+        s.train()
     g = torch.Generator().manual_seed(seed)
     for t in range(25):
         x = torch.rand(B, 3, generator=g) * 60.0 - 10.0
@@ -39,7 +40,11 @@ def neuron_case(cls, B, seed):
         out = big(x, **kw)
         for b in range(B):
             ob = small[b](x[b:b + 1], **kw)
-            for name, a, c_ in (("spike", out[b:b + 1], ob), ("voltage", big.voltage[b:b + 1], small[b].voltage), ("refrac", big.refrac[b:b + 1], small[b].refrac)):
+            chk = [("spike", out[b:b + 1], ob), ("voltage", big.voltage[b:b + 1], small[b].voltage), ("refrac", big.refrac[b:b + 1], small[b].refrac)]
+            for an in ("threshold_adaptation", "current_adaptation"):
+                if hasattr(big, an):
+                    chk.append((an, getattr(big, an), getattr(small[b], an)))  # frozen: stays what the constructor made it
+            for name, a, c_ in chk:
                 if not torch.equal(a, c_):
                     return {"what": f"C11/neuron/{name}", "input": dict(cls=cls, B=B, seed=seed, step=t, sample=b), "expected": c_.flatten().tolist(), "actual": a.flatten().tolist()}
     return None
